@@ -159,6 +159,8 @@ def opsAlg : List (String × OpFn) := [
   ("mx.JQu", do let j ← jones; let q ← biquat; pure (flat (j * convertUC q))),
   ("mx.JqhR", do let j ← jones; let q ← quat; pure (flat (j * convertHR q))),
   ("mx.JquR", do let j ← jones; let q ← quat; pure (flat (j * convertUR q))),
+  ("mx.QhJ", do let q ← biquat; let j ← jones; pure (flat (convertHC q * j) ++ [0, 0, 0, 0, 0, 0, 0, 0])),
+  ("mx.QuJ", do let q ← biquat; let j ← jones; pure (flat (convertUC q * j) ++ [0, 0, 0, 0, 0, 0, 0, 0])),
   ("mx.qhRJ", do let q ← quat; let j ← jones; pure (flat (convertHR q * j))),
   ("mx.quRJ", do let q ← quat; let j ← jones; pure (flat (convertUR q * j))),
   ("mx.qhqu", do let q ← quat; let u ← quat; pure (flat (convertHR q * convertUR u))),
